@@ -15,6 +15,8 @@ pub enum Op {
     Push(String),
     Freeze,
     Reset,
+    /// n consecutive put("0") (a long run of leading zeros without a 300-step trace)
+    PutZeros(u16),
 }
 pub type Trace = Vec<Op>;
 
@@ -31,6 +33,8 @@ fn digits_strategy() -> BoxedStrategy<String> {
         2 => "[0-9]{1,4}",
         1 => "[1-9]0{4,12}",
         1 => "[0-9]{5,13}",
+        1 => "[0-9]{14,40}",
+        1 => "0{0,20}[1-9]{1,3}0{0,20}",
     ]
     .boxed()
 }
@@ -41,6 +45,7 @@ pub fn op_strategy() -> BoxedStrategy<Op> {
         4 => ("[0-9]", 0usize..14).prop_map(|(c, p)| Op::PutDigitAt(c.chars().next().unwrap(), p)),
         11 => (0usize..SHIFTS.len()).prop_map(|i| Op::Shift(SHIFTS[i])),
         1 => (0usize..40).prop_map(Op::Shift),
+        1 => (1u16..40).prop_map(Op::PutZeros),
         2 => digits_strategy().prop_map(Op::Fput),
         2 => digits_strategy().prop_map(Op::Push),
         1 => Just(Op::Freeze),
@@ -50,10 +55,33 @@ pub fn op_strategy() -> BoxedStrategy<Op> {
 }
 
 /// every query, on the real builder; a panic in any query is a violation
+/// probe positions: every small k plus the ones around the current length (full quadratic probing of a
+/// 65 000-digit builder would take minutes)
+fn probes(len: usize) -> Vec<usize> {
+    let mut v: Vec<usize> = (0..=(len + 2).min(24)).collect();
+    if len > 22 {
+        for k in [len - 2, len - 1, len, len + 1, len + 2, len / 2, 31, 32, 33, 255, 256, 65_535, 65_536] {
+            if k <= len + 2 && !v.contains(&k) {
+                v.push(k);
+            }
+        }
+    }
+    v.sort();
+    v
+}
+fn render_summary(s: &str) -> String {
+    if s.len() <= 200 {
+        s.to_string()
+    } else {
+        // long renderings are compared by length, both ends and a hash
+        format!("{}…{}#len{}#h{:016x}", &s[..60], &s[s.len() - 60..], s.len(), crate::engine::hash_of(s))
+    }
+}
+/// every query, on the real builder; a panic in any query is a violation
 fn observe_real(d: &DigitString) -> String {
     let mut s = format!(
         "{}|len={}|empty={}|null={}|ord={}|flags={}|marker_none={}|",
-        d.to_string(),
+        render_summary(&d.to_string()),
         d.len(),
         d.is_empty(),
         d.is_null(),
@@ -61,30 +89,34 @@ fn observe_real(d: &DigitString) -> String {
         d.flags,
         d.marker.is_none()
     );
-    let n = d.len() + 3;
-    for k in 0..n {
-        s.push_str(&format!("p{}={};f{}={};q{}={};", k, std::str::from_utf8(d.peek(k)).unwrap_or("<non-utf8>"), k, d.is_free(k), k, d.is_position_free(k)));
+    let ks = probes(d.len());
+    for &k in &ks {
+        s.push_str(&format!("p{}={};f{}={};q{}={};", k, render_summary(std::str::from_utf8(d.peek(k)).unwrap_or("<non-utf8>")), k, d.is_free(k), k, d.is_position_free(k)));
     }
-    for a in 0..n {
-        for b in a + 1..n + 1 {
-            s.push(if d.is_range_free(a, b) { '1' } else { '0' });
+    for &a in &ks {
+        for &b in &ks {
+            if a < b {
+                s.push(if d.is_range_free(a, b) { '1' } else { '0' });
+            }
         }
     }
-    s.push_str(&format!("|deref={}", std::str::from_utf8(&d[..]).unwrap_or("<non-utf8>")));
+    s.push_str(&format!("|deref={}", render_summary(std::str::from_utf8(&d[..]).unwrap_or("<non-utf8>"))));
     s
 }
 fn observe_model(m: &Model) -> String {
-    let mut s = format!("{}|len={}|empty={}|null={}|ord=false|flags=0|marker_none=true|", m.render(), m.len(), m.is_empty(), m.is_null());
-    let n = m.len() + 3;
-    for k in 0..n {
-        s.push_str(&format!("p{}={};f{}={};q{}={};", k, std::str::from_utf8(m.peek(k)).unwrap(), k, m.is_free(k), k, m.is_position_free(k)));
+    let mut s = format!("{}|len={}|empty={}|null={}|ord=false|flags=0|marker_none=true|", render_summary(&m.render()), m.len(), m.is_empty(), m.is_null());
+    let ks = probes(m.len());
+    for &k in &ks {
+        s.push_str(&format!("p{}={};f{}={};q{}={};", k, render_summary(std::str::from_utf8(m.peek(k)).unwrap()), k, m.is_free(k), k, m.is_position_free(k)));
     }
-    for a in 0..n {
-        for b in a + 1..n + 1 {
-            s.push(if m.is_range_free(a, b) { '1' } else { '0' });
+    for &a in &ks {
+        for &b in &ks {
+            if a < b {
+                s.push(if m.is_range_free(a, b) { '1' } else { '0' });
+            }
         }
     }
-    s.push_str(&format!("|deref={}", std::str::from_utf8(&m.buf).unwrap()));
+    s.push_str(&format!("|deref={}", render_summary(std::str::from_utf8(&m.buf).unwrap())));
     s
 }
 fn nonzero(s: &str) -> Vec<u8> {
@@ -108,7 +140,7 @@ impl Property for C12 {
         "C12"
     }
     fn rule(&self) -> String {
-        "Generated: operation traces of length 1..40 over put/put_digit_at/shift/fput/push/freeze/reset with digit arguments of 1..13 digits (zero-biased) and positions up to 39; after every step all public queries (to_string, len, is_empty, is_null, peek(k), is_free(k), is_position_free(k), is_range_free(a,b) a<b, deref, is_ordinal, flags, marker) for k <= len+2 are compared with an independent reference model and the statement's direct invariants are asserted. Enumerated: every trace of length <= 3 over a 19-operation alphabet (quick) / length <= 4 (thorough). Non-trivial = distinct traces containing a refused operation on a non-empty builder, a sub-group shift (shift on a buffer longer than p), or a shift with implicit one.".into()
+        "Generated: operation traces of length 1..40 over put/put_digit_at/shift/fput/push/freeze/reset with digit arguments of 1..40 digits (zero-biased), positions up to 39 and runs of up to 40 leading zeros; one trace in 200 is a short trace with extreme arguments (250..700 leading zeros, positions / shifts around 2^16 and up to 70 000); after every step all public queries (to_string, len, is_empty, is_null, peek(k), is_free(k), is_position_free(k), is_range_free(a,b) a<b, deref, is_ordinal, flags, marker) for k <= len+2 are compared with an independent reference model and the statement's direct invariants are asserted. Enumerated: every trace of length <= 3 over a 19-operation alphabet (quick) / length <= 4 (thorough). Non-trivial = distinct traces containing a refused operation on a non-empty builder, a sub-group shift (shift on a buffer longer than p), or a shift with implicit one.".into()
     }
     fn assumptions(&self) -> Vec<String> {
         vec![
@@ -122,7 +154,20 @@ impl Property for C12 {
         vec![format!("all traces of length <= {} over the 19-operation alphabet", tier.pick(3, 4))]
     }
     fn strategy(&self, _tier: Tier) -> BoxedStrategy<Trace> {
-        proptest::collection::vec(op_strategy(), 1..40).boxed()
+        // 1 trace in 200 is a short one with extreme arguments: runs of 250..700 leading zeros, positions and
+        // shifts around 2^16, shifts of tens of thousands (builders of 65 000+ digits)
+        let huge_op = prop_oneof![
+            3 => prop_oneof![Just(250u16), Just(255), Just(256), Just(257), 250u16..700].prop_map(Op::PutZeros),
+            2 => (65_530usize..65_545).prop_map(Op::Shift),
+            2 => (65_530usize..65_545).prop_map(|p| Op::PutDigitAt('1', p)),
+            1 => (1_000usize..70_000).prop_map(Op::Shift),
+            6 => op_strategy(),
+        ];
+        prop_oneof![
+            199 => proptest::collection::vec(op_strategy(), 1..40),
+            1 => proptest::collection::vec(huge_op, 1..7),
+        ]
+        .boxed()
     }
     fn cases(&self, tier: Tier) -> u64 {
         tier.pick(400_000, 12_000_000)
@@ -209,6 +254,19 @@ impl Property for C12 {
                     d.reset();
                     m = Model::default();
                     (true, true, false)
+                }
+                Op::PutZeros(n) => {
+                    // all n puts succeed or all fail (the state that decides does not change in between)
+                    let mut ok_r = true;
+                    let mut ok_m = true;
+                    for _ in 0..*n {
+                        ok_r &= no_panic(&step, || d.put(b"0").is_ok())?;
+                        ok_m &= m.put(b"0");
+                    }
+                    if *n > 0 && ok_r && d.len() != before_render.len() + *n as usize {
+                        return Err(format!("{}: {} leading zeros accepted but the length went from {} to {}", step, n, before_render.len(), d.len()));
+                    }
+                    (ok_r, ok_m, true)
                 }
             };
             let after = no_panic(&format!("queries after {}", step), || observe_real(&d))?;
